@@ -122,15 +122,21 @@ _vbi_pfc_demux_decode		(vbi_pfc_demux *	dx,
 
 			if ((int) dx->block.application_id < 0) {
 				int sh; /* structure header */
+				int sh_lo;
+				int sh_hi;
 
-				sh = vbi_unham16p (dx->block.block)
-					+ vbi_unham16p (dx->block.block + 2)
-					* 256;
+				sh_lo = vbi_unham16p (dx->block.block);
+				sh_hi = vbi_unham16p (dx->block.block + 2);
 
-				if (sh < 0) {
+				/* Not (sh_lo + sh_hi * 256) < 0: an error
+				   in the low byte (-1 ... -16) is masked
+				   by a non-zero high byte. */
+				if ((sh_lo | sh_hi) < 0) {
 					/* Hamming error. */
 					goto desynced;
 				}
+
+				sh = sh_lo + sh_hi * 256;
 
 				dx->block.application_id = sh & 0x1F;
 				dx->block.block_size = sh >> 5;
@@ -240,10 +246,17 @@ vbi_pfc_demux_feed		(vbi_pfc_demux *	dx,
 			return TRUE;
 		}
 
-		subno = vbi_unham16p (buffer + 4)
-			+ vbi_unham16p (buffer + 6) * 256;
-		if (subno < 0)
-			goto desynced;
+		{
+			int s_lo = vbi_unham16p (buffer + 4);
+			int s_hi = vbi_unham16p (buffer + 6);
+
+			/* An error in the low byte must not be masked
+			   by a non-zero high byte. */
+			if ((s_lo | s_hi) < 0)
+				goto desynced;
+
+			subno = s_lo + s_hi * 256;
+		}
 
 		stream = (subno >> 8) & 15;
 		if (stream != dx->block.stream) {
